@@ -323,7 +323,7 @@ def g_kttv(draw, tier):
     else:
         c["d"] = R.d_dims(draw, n, allow_none=True)
     c["full"] = draw(st.booleans())
-    c["vecs"] = [R.d_vals(draw, s, c["vkind"]) for s in c["shape"]]
+    c["vecs"] = R.d_vecs(draw, c["shape"], c["vkind"])
     return c
 
 
@@ -579,7 +579,7 @@ def g_tttv(draw, tier):
     else:
         c["d"] = R.d_dims(draw, n, allow_none=True)
     c["full"] = draw(st.booleans())
-    c["vecs"] = [R.d_vals(draw, s, c["vkind"]) for s in c["shape"]]
+    c["vecs"] = R.d_vecs(draw, c["shape"], c["vkind"])
     return c
 
 
@@ -825,7 +825,7 @@ def g_sttv(draw, tier):
     else:
         c["d"] = R.d_dims(draw, n, allow_none=True)
     c["full"] = draw(st.booleans())
-    c["vecs"] = [R.d_vals(draw, s, "int") for s in c["shape"]]
+    c["vecs"] = R.d_vecs(draw, c["shape"], "int")
     return c
 
 
